@@ -372,6 +372,17 @@ fn f32_case(rep: &mut Report, which: Formula, rng: &mut Rng, complex: bool) {
         _ => rng.r(-3.0, 3.0) as f32,
     };
     let h = if rng.bool() { 0.5f32.powi(1 + rng.below(5) as i32) } else { rng.log10(-1.5, -0.30103) as f32 };
+    // round 11: a third of the cases with a step that is small against |x| (h/|x| down to 1e-3/3: a step
+    // "widened to what the precision resolves" for the abscissae but not for the divisor shows only there);
+    // dyadic steps 2^-6 ... 2^-9 and log-uniform 1e-3 ... 0.03
+    let h = match rng.below(6) {
+        0 => 0.5f32.powi(6 + rng.below(4) as i32),
+        1 => rng.log10(-3.0, -1.5) as f32,
+        _ => h,
+    };
+    if (h as f64) < 0.03 {
+        rep.count(&format!("{}/f32_cases_with_step_below_0.03", key), 1);
+    }
     let c32: Vec<C32> = p.c.iter().map(|z| C32::new(z.re as f32, z.im as f32)).collect();
     // the polynomial actually sampled has the f32-rounded coefficients: the oracle uses those
     let p32 = Poly { c: c32.iter().map(|z| C::new(z.re as f64, z.im as f64)).collect(), complex };
@@ -900,6 +911,7 @@ pub fn thresholds(ctx: &Ctx, rep: &Report) -> Vec<Threshold> {
                 observed: rep.counter(&format!("{}/leading_term_resolved_100x", key)) as f64,
             });
             t.push(Threshold { what: format!("{} cases with >= 2 exactly zero samples on the stencil", key), required: ctx.tier.pick(2_000.0, 50_000.0), observed: (2..=4).map(|k| rep.counter(&format!("{}/stencil_zero_cases_with_{}_zero_samples", key, k))).sum::<i64>() as f64 });
+            t.push(Threshold { what: format!("{} single-precision cases with a step below 0.03", key), required: ctx.tier.pick(1_500.0, 40_000.0), observed: rep.counter(&format!("{}_f32/f32_cases_with_step_below_0.03", key)) as f64 });
             t.push(Threshold { what: format!("{} single-precision cases at x = +-0", key), required: ctx.tier.pick(1_000.0, 25_000.0), observed: rep.counter(&format!("{}_f32/f32_cases_at_zero", key)) as f64 });
             t.push(Threshold { what: format!("{} polynomial cases scaled by 1e+-100..250", key), required: ctx.tier.pick(2_000.0, 50_000.0), observed: rep.counter(&format!("{}/scaled_by_1e+-100..250", key)) as f64 });
             t.push(Threshold { what: format!("{} linearity cases", key), required: 1_500.0 * big, observed: rep.counter(&format!("{}/linearity_cases", key)) as f64 });
